@@ -23,7 +23,13 @@
 (*   nenv   : the task runs in a named environment (td.named_env), prepared *)
 (*            in the pilot sandbox; its activation script is sourced        *)
 (*   omp    : td.threading_type = OpenMP                                   *)
-(*   gpr    : GPUs per rank (rank r is assigned GPUs r*gpr .. r*gpr+gpr-1) *)
+(*   gq     : GPUs per rank in quarters (0, 1, 2: a share of one GPU; 4, 8: *)
+(*            whole GPUs); the slots give rank r the GPU ids GpusOf(c, r)   *)
+(*   gtype  : td.gpu_type ("", "CUDA", "ROCm")                              *)
+(*   sto    : td.startup_timeout set (rank 0 reports task_startup_done)     *)
+(*   svc    : td.services names a service (RP_INFO_<NAME> from the registry)*)
+(*   cfgpre : the resource configuration adds a task_pre_exec command       *)
+(*   prof   : profiling enabled (RP_PROF_TGT)                               *)
 (*   out, err : "default" | "rel" | "abs": td.stdout / td.stderr unset, a  *)
 (*            relative name, an absolute path - independently of each other *)
 (***************************************************************************)
@@ -68,8 +74,12 @@ RunCmds(sig, es, i, r, F) ==
 FailCode == 1          \* what rp_error exits with; the property only demands # 0
 
 \* one rank of the exec script.  xrc[r + 1] is the executable's exit code on rank r
+\* commands that run before the executable: the described pre_exec entries, then
+\* the command the resource configuration prescribes for every task
+AllPre(c) == c.pre \o (IF c.cfgpre THEN <<GEntry>> ELSE <<>>)
+
 RankRun(c, r, F, xrc) ==
-  LET pre == RunCmds("pre_exec", c.pre, 1, r, F) IN
+  LET pre == RunCmds("pre_exec", AllPre(c), 1, r, F) IN
   IF pre.failed
   THEN [ran |-> pre.ran, execd |-> FALSE, code |-> FailCode, why |-> "pre"]
   ELSE LET post == RunCmds("post_exec", c.post, 1, r, F) IN
@@ -78,7 +88,7 @@ RankRun(c, r, F, xrc) ==
         code  |-> IF post.failed THEN FailCode ELSE xrc[r + 1],
         why   |-> IF post.failed THEN "post" ELSE "exec"]
 
-NPre(c, r, F) == Len(RunCmds("pre_exec", c.pre, 1, r, F).ran)
+NPre(c, r, F) == Len(RunCmds("pre_exec", AllPre(c), 1, r, F).ran)
 
 \* what the launcher returns for the exit codes of its ranks: Fork execs the
 \* one script; the MPI stand-in reports the first non-zero code in rank order
@@ -100,7 +110,7 @@ LaunchRun(c, F, xrc) ==
   LET prel == RunCmds("pre_launch", GSeq(c.prel), 1, L, F) IN
   IF prel.failed
   THEN [ran |-> prel.ran, launched |-> FALSE, code |-> FailCode, why |-> "pre",
-        ranks |-> <<>>, out |-> FileOf(c.out, "out"), err |-> FileOf(c.err, "err")]
+        ranks |-> <<>>, ctrl |-> {}, out |-> FileOf(c.out, "out"), err |-> FileOf(c.err, "err")]
   ELSE LET rr    == [i \in 1 .. c.ranks |-> RankRun(c, i - 1, F, xrc)]
            lret  == LauncherRet([i \in 1 .. c.ranks |-> rr[i].code])
            postl == RunCmds("post_launch", GSeq(c.postl), 1, L, F)
@@ -111,6 +121,7 @@ LaunchRun(c, F, xrc) ==
                          ELSE IF \A i \in 1 .. c.ranks : rr[i].why = "exec" THEN "exec"
                          ELSE "rank",
             ranks    |-> rr,
+            ctrl     |-> IF c.sto THEN {0} ELSE {},
             out      |-> FileOf(c.out, "out"),
             err      |-> FileOf(c.err, "err")]
 
@@ -129,5 +140,15 @@ Export(ev) == [i \in 1 .. Len(ev) |-> "described"]
 SeenEnv(c) == Export(Activate(c, EnvBefore(c)))
 
 \* what the executable of rank r sees besides argv / environment
-GpusOf(c, r) == [j \in 1 .. c.gpr |-> r * c.gpr + (j - 1)]
+\* GPU ids in rank r's slot: whole GPUs are exclusive, shares of a GPU are packed
+\* (two halves / four quarters on one GPU)
+GpusOf(c, r) ==
+  IF c.gq >= 4 THEN [j \in 1 .. (c.gq \div 4) |-> r * (c.gq \div 4) + (j - 1)]
+  ELSE IF c.gq > 0 THEN <<(r * c.gq) \div 4>>
+  ELSE <<>>
+\* the GPU environment of the executable: the type's variable lists exactly the
+\* ids of the rank's slot, also for a shared GPU; no GPUs or no type: not set by RP
+GpuEnv(c, r) ==
+  IF c.gtype = "CUDA" /\ c.gq > 0 THEN [set |-> TRUE, ids |-> GpusOf(c, r)]
+  ELSE [set |-> FALSE, ids |-> <<>>]
 =============================================================================
